@@ -42,6 +42,8 @@ def main() -> int:
     ap.add_argument("--seeds", nargs="*", type=int, default=[])
     ap.add_argument("--only")
     ap.add_argument("--keep-evidence", action="store_true")
+    ap.add_argument("--base", default="/repo/src", help="source tree the mutants are applied to (default /repo/src)")
+    ap.add_argument("--shards", default=None)
     args = ap.parse_args()
     prop = args.prop.upper()
     ev = VERIF / "evidence" / f"{prop}.json"
@@ -64,7 +66,7 @@ def main() -> int:
                 continue
             scratch = Path(tempfile.mkdtemp(prefix=f"verif-mut-{prop}-", dir="/dev/shm"))
             try:
-                shutil.copytree("/repo/src", scratch / "src")
+                shutil.copytree(args.base, scratch / "src")
                 f = scratch / "src" / rel
                 text = f.read_text()
                 if text.count(old) != 1:
